@@ -446,6 +446,38 @@ func (e *c09Env) catalogue() []c09Op {
 			return ev.ckks.Add(x, y, z)
 		}, o)
 	})
+	// the log n + HW(n) tree with n NOT a power of two (the accumulator path), also in place (pattern out=op0 of runOp)
+	for _, n := range []int{5, 6, 7} {
+		n := n
+		un(fmt.Sprintf(R+"InnerFunction(n=%d)", n), "", func(ev *c09Evals, a, o *rlwe.Ciphertext) error {
+			return ev.rl.InnerFunction(a, 1, n, func(x, y, z *rlwe.Ciphertext) error {
+				if ev.bgv != nil {
+					return ev.bgv.Add(x, y, z)
+				}
+				return ev.ckks.Add(x, y, z)
+			}, o)
+		})
+		un(fmt.Sprintf(R+"InnerFunction[Sub](n=%d)", n), "", func(ev *c09Evals, a, o *rlwe.Ciphertext) error {
+			return ev.rl.InnerFunction(a, 1, n, func(x, y, z *rlwe.Ciphertext) error {
+				if ev.bgv != nil {
+					return ev.bgv.Sub(x, y, z)
+				}
+				return ev.ckks.Sub(x, y, z)
+			}, o)
+		})
+		un(fmt.Sprintf("scheme.InnerSum(n=%d)", n), "", func(ev *c09Evals, a, o *rlwe.Ciphertext) error {
+			if ev.bgv != nil {
+				return ev.bgv.InnerSum(a, 1, n, o)
+			}
+			return ev.ckks.InnerSum(a, 1, n, o)
+		})
+		un(fmt.Sprintf("scheme.Replicate(n=%d)", n), "", func(ev *c09Evals, a, o *rlwe.Ciphertext) error {
+			if ev.bgv != nil {
+				return ev.bgv.Replicate(a, 1, n, o)
+			}
+			return ev.ckks.Replicate(a, 1, n, o)
+		})
+	}
 	// Relinearize: degree-2 input
 	ops = append(ops, c09Op{name: R + "Relinearize", kind: "deg2", outDeg: 1,
 		call: func(ev *c09Evals, a *rlwe.Ciphertext, _ interface{}, o *rlwe.Ciphertext) error {
@@ -1207,6 +1239,8 @@ func genC09(c *Ctx) {
 		}
 	}
 	c09Degrees(c)
+	c09Inputs(c)
+	c09PolyVectors(c)
 	c09RGSW(c)
 	c09Circuits(c)
 	c09LinTrans(c)
